@@ -1178,4 +1178,39 @@ theorem mergeBlocks_eq [LinearOrder κ] [IsStrictOrderedRing κ] (th e : κ → 
       maskedExp_take, maskedExp_drop, ← add_div, wsumCoord_take_drop]
 
 end Merge
+
+/-! ## The scores' sequence axis read through broadcasting (audit E) -/
+section SeqAxis
+variable {κ : Type} [Field κ]
+
+/-- reading a list through broadcasting along its own length gives the list back -/
+theorem range_map_bget {α : Type} (ws : List α) (dflt : α) :
+    (List.range ws.length).map (fun t => bget ws t dflt) = ws := by
+  apply List.ext_getElem
+  · simp
+  · intro t h1 h2
+    simp only [List.length_map, List.length_range] at h1
+    simp only [List.getElem_map, List.getElem_range, bget]
+    split
+    · rename_i hl
+      have : t = 0 := by omega
+      subst this
+      simp [List.getD_eq_getElem?_getD, h2]
+    · simp [List.getD_eq_getElem?_getD, h2]
+
+theorem weights_length (th e : κ → κ) (fl : Flavour κ) (q : List κ) (ks : List (List κ))
+    (mask : Option (List Bool)) (hm : (effMask mask ks.length).length = ks.length) :
+    (weights th e fl q ks mask).length = ks.length := by
+  simp [weights, softmaxMasked, maskedExp, hm]
+
+theorem attendSeqB_eq_attend (th e : κ → κ) (fl : Flavour κ) (D : Nat) (q : List κ)
+    (ks vs : List (List κ)) (mask : Option (List Bool))
+    (hv : ks.length = vs.length) (hm : (effMask mask ks.length).length = ks.length) :
+    attendSeqB th e fl D q ks vs mask = attend th e fl D q ks vs mask := by
+  have hl := weights_length th e fl q ks mask hm
+  unfold attendSeqB attend
+  simp only []
+  rw [← hv, ← hl, range_map_bget]
+
+end SeqAxis
 end PdtVerif.Attention
